@@ -710,6 +710,10 @@ class JSArrayBuffer(JSObject):
 
     def __init__(self, byte_length: int = 0):
         super().__init__()
+        if byte_length < 0:
+            from .errors import JSRangeError
+
+            raise JSRangeError("Invalid array buffer length")
         self._data = bytearray(byte_length)
 
     @property
